@@ -1,7 +1,7 @@
 #!/bin/sh
-# tools/confirm_lane.sh <lane> <Cxx>...   confirms work/seeds3/<Cxx>/{a,b} as seeded/<Cxx>-{a3,b3}
-L="$1"; shift
+# tools/confirm_lane.sh <lane> <round> <Cxx>...   confirms work/seeds<round>/<Cxx>/{a,b} as seeded/<Cxx>-{a,b}<round>
+L="$1"; R="$2"; shift 2
 for P in "$@"; do for V in a b; do
-  [ -d /verif/work/seeds3/$P/$V ] || continue
-  LANE=$L /verif/tools/confirm_seed2.sh $P ${V}3 /verif/work/seeds3/$P/$V > /verif/work/seeds3/$P-$V.out 2>&1
+  [ -d /verif/work/seeds$R/$P/$V ] || continue
+  LANE=$L /verif/tools/confirm_seed2.sh $P ${V}$R /verif/work/seeds$R/$P/$V > /verif/work/seeds$R/$P-$V.out 2>&1
 done; done
